@@ -23,9 +23,8 @@ Violation keys:
   C12:<function>:unexpected-exception:<Type>-<message slug>   (<function> = innermost library function)
   C12:<reader>:alias:<key>=<alias>:<rejected|differs>
   C12:<reader>:default:<key>
-  C12:from_dict-shares-input:<kind>:<field>      the object (or the dictionary) changes when the other is edited in place
-  C12:to_dict-shares-object:<kind>:<field>
-  C12:roundtrip-copy-shares-original:<kind>:<field>
+Observed, never a violation (counters aliasing_observed:<class>:<kind>:<field>, class = from_dict-shares-input |
+to_dict-shares-object | roundtrip-copy-shares-original): containers shared between a dictionary and an object.
   C12:<saver>:files-interfere:<kind>.<field>     an object saved next to others (other names, same directory) comes
                                                  back different
 """
@@ -1199,7 +1198,9 @@ def check_aliasing(cx, case, out):
     ikind, field = _site_kind(reader, site)
 
     def report(cls, who, why):
-        out.append(("%s:%s:%s:%s" % (PID, cls, ikind, field), "%s%s: %s" % (ctx, who, why)))
+        # OBSERVATION ONLY: the C12 statement does not speak of independence from later in-place edits (both
+        # sides of a shared container always have the same content), so sharing is counted, never judged
+        cx.count("aliasing_observed:%s:%s:%s" % (cls, ikind, field))
 
     if mode == "A":
         before = _snapshot(reader, x)
@@ -1276,8 +1277,8 @@ def _check(case, tmp=None):
         elif sub == "aliasing":
             try:
                 check_aliasing(cx, case, out)
-            except LibFail as lf:
-                out.append((lf.key(), lf.what("[aliasing %s %s %s] " % (case["base"], case["mode"], case["site"])) + "\n" + lf.tail))
+            except LibFail:
+                cx.count("aliasing_case_not_evaluated_conversion_raised")   # reported by the round-trip sub-spaces
         elif sub == "names":
             if tmp is None:
                 own = tempfile.mkdtemp(dir=TMP_PARENT, prefix="c12-case-")
@@ -1718,7 +1719,7 @@ def _spaces(tier, seed):
     def gen_aliasing():
         for c in alias_cases:
             yield dict(c)
-    sp.append(("aliasing on the in-memory route: %d base dictionaries (species ... script with a grid / with a graph; per-environment D / density / chstt / k dictionaries, state / cell_env / t_sample / chemostats lists, units and boundary-condition dictionaries) x every mutable container of the input dictionary (A), of the dictionary returned by to_dict (B1), every mutable value reachable through the public properties of the re-read object (B2) and of the original (B3), each changed in place one at a time; the other parties must not change"
+    sp.append(("aliasing, OBSERVED, NOT JUDGED (the statement does not speak of independence from later in-place edits; sharing is counted in aliasing_observed:*, never a violation): %d base dictionaries (species ... script with a grid / with a graph; per-environment D / density / chstt / k dictionaries, state / cell_env / t_sample / chemostats lists, units and boundary-condition dictionaries) x every mutable container of the input dictionary (A), of the dictionary returned by to_dict (B1), every mutable value reachable through the public properties of the re-read object (B2) and of the original (B3), each changed in place one at a time; which other party changes with it is recorded"
                % len(ALIASING_BASES), gen_aliasing, len(alias_cases), 25))
 
     # file names ---------------------------------------------------------------------------------------
@@ -1838,6 +1839,8 @@ def run(ctx):
         per[job[0]] = per.get(job[0], 0) + r["n"][0]
     for i, (name, gen, size, chunk) in enumerate(_SPACES):
         ctx.subspace(name, size, per.get(i, 0), exhaustive=(per.get(i, 0) == size))
+    ctx.note("aliasing_observed_not_judged", {k[len("aliasing_observed:"):]: v for k, v in sorted(ctx.counters.items())
+                                              if k.startswith("aliasing_observed:")})
     ctx.note("unit_systems", [list(u) for u in U])
     ctx.note("defaults_claimed", sorted(set("%s:%s" % (c["reader"], c["key"]) for c in _claims())))
     ctx.rule("every case of each listed sub-space is enumerated in fixed order on the real to_dict / from_dict / "
